@@ -130,6 +130,7 @@ func registerCborKinds(c *core.Ctx) {
 		}
 		return line, "ok b:" + hex.EncodeToString(raw) + " b:" + hex.EncodeToString(buf.Bytes())
 	}})
+	registerCborMoreKinds(c) // monitor-only kinds of cbor_more.go
 }
 
 // ---- byte-string generators ----
@@ -378,7 +379,9 @@ func RunC11(c *core.Ctx) {
 	unsupportedNote(c)
 	c.Rep.Rule = "cases = (target type, random well-formed value from a seeded generator incl. every integer head boundary and length boundary): " +
 		"model bytes vs implementation bytes; monitor on the implementation alone: decode(encode(v)) = v, encode(decode(b)) = b, heads shortest-form, " +
-		"map keys strictly increasing bytewise (checked by an independent walker); non-trivial = encoding succeeded; distinct = distinct (type, value)"
+		"map keys strictly increasing bytewise (checked by an independent walker); for every type, cbor.ArrayShift and protocol.Parse{Device,Owner}RvInfo: " +
+		"the input bytes (and the spare capacity behind them) are untouched by Unmarshal / Decoder.Decode / direct UnmarshalCBOR / parsing, a second decode or parse of " +
+		"the same input gives the same result and leaves the first one alone, re-encoding gives the same bytes; non-trivial = encoding succeeded; distinct = distinct (type, value)"
 	c.Trivial = func(o core.Obs) bool { return !strings.HasPrefix(o.Impl, "ok") }
 	rounds := 60
 	if !c.Quick() {
@@ -429,6 +432,8 @@ func RunC11(c *core.Ctx) {
 			c.Do("cbor.unmarshal", pd, "decode-of-encoded")
 		}
 	}
+	// decoding, parsing and re-encoding never write into their input and do not change what they returned (cbor_more.go)
+	runCborNoWrite(c)
 }
 
 // canonicalWhy walks b as CBOR (independently of go-fdo) and reports the first canonical-form violation.
